@@ -20,9 +20,9 @@ from harness.common import coq_Q, coq_bool, coq_list, coq_opt
 COLS = ["a", "b", "c", "d"]
 
 COQ_LEVEL_HELPER = """
-Definition L (c : nat) (n e : bool) (m u : Q) (tc : option nat) (w mu : Q) (d : bool) (ec : option nat) : level :=
+Definition L (c : nat) (n e : bool) (m u : Q) (tc : option nat) (w mu : Q) (d : bool) (ec : list nat) : level :=
   {| lcond := c; is_null := n; is_else := e; lm := m; lu := u; tf_col := tc; tf_w := w; tf_min_u := mu;
-     disable_exact_detect := d; exact_col := ec |}.
+     disable_exact_detect := d; exact_cols := ec |}.
 """
 
 
@@ -59,6 +59,62 @@ def custom_sqls(x: str, y: str):
 
 M_P2 = ["1", "1/2", "1/4", "1/8"]
 U_P2 = ["1", "1/2", "1/4", "1/8", "1/16"]
+
+
+def ecols(lv) -> list:
+    """columns of an AND-of-equalities level ([] if the level is not of that shape)"""
+    if lv.get("exact_cols") is not None:
+        return list(lv["exact_cols"])
+    return [lv["exact_col"]] if lv.get("exact_col") else []
+
+
+def _lv(kind, col, mvals, uvals, rng, **kw):
+    lv = {"kind": kind, "col": col, "arg": None, "sql": None, "m": rng.choice(mvals), "u": rng.choice(uvals),
+          "tf_col": None, "w": "1", "min_u": "0", "disable": False, "exact_col": None, "exact_cols": None,
+          "u_via": "creator", "w_via": "creator"}
+    lv.update(kw)
+    return lv
+
+
+def gen_multi_exact_comparison(rng, x: str, y: str, mode: str):
+    """a comparison over two columns in which an exact match on BOTH columns is a level of its own next to the
+    single-column exact levels that carry TF adjustments (forename/surname style).  Either the library's
+    ForenameSurnameComparison or hand-written levels with the two-column level before or after the single ones."""
+    mvals, uvals = (M_T, U_T) if mode == "T" else (M_P2, U_P2) if mode == "P2" else (M_X, U_X)
+    if rng.random() < 0.4:
+        ths = rng.choice([[0.92, 0.88], [0.9], [0.95, 0.8]])
+        levels = [_lv("null", x, mvals, uvals, rng, both=[x, y]),      # (x_l IS NULL OR x_r IS NULL) AND (y_l IS NULL OR y_r IS NULL)
+                  _lv("and_exact", x, mvals, uvals, rng, exact_cols=[x, y]),
+                  _lv("reversed", x, mvals, uvals, rng)]
+        levels += [_lv("jw2", x, mvals, uvals, rng, arg=t) for t in ths]
+        levels += [_lv("exact", y, mvals, uvals, rng, exact_col=y, tf_col=y),
+                   _lv("exact", x, mvals, uvals, rng, exact_col=x, tf_col=x),
+                   _lv("else", x, mvals, uvals, rng)]
+        return {"name": f"{x}_{y}", "route": "lib_fnsn", "cols": [x, y], "jw": ths, "levels": levels}
+    both = _lv("custom", x, mvals, uvals, rng, sql=f"{x}_l = {x}_r AND {y}_l = {y}_r", exact_cols=[x, y])
+    if rng.random() < 0.3:
+        both["tf_col"], both["disable"] = rng.choice([x, y]), rng.random() < 0.5     # TF on the two-column level itself
+        both["w"], both["min_u"] = rng.choice(W_ORD), rng.choice(MINU)
+    singles = [_lv("exact", y, mvals, uvals, rng, exact_col=y, tf_col=y, w=rng.choice(W_ORD), min_u=rng.choice(MINU)),
+               _lv("exact", x, mvals, uvals, rng, exact_col=x, tf_col=x, w=rng.choice(W_ORD), min_u=rng.choice(MINU))]
+    rng.shuffle(singles)
+    fuzzy = [_lv("lev", c, mvals, uvals, rng, arg=rng.choice([1, 2]), tf_col=c, w=rng.choice(W_ORD), min_u=rng.choice(MINU))
+             for c in rng.sample([x, y], rng.choice([1, 2]))]
+    if rng.random() < 0.4:
+        fuzzy.append(_lv("custom", x, mvals, uvals, rng, sql=f"substr({x}_l,1,1) = substr({x}_r,1,1)", tf_col=x,
+                         w=rng.choice(W_ORD), min_u=rng.choice(MINU)))
+    mids = [both] + singles if rng.random() < 0.7 else singles + [both]
+    if rng.random() < 0.15:                       # a fuzzy TF level listed before the exact levels
+        mids = fuzzy[:1] + mids + fuzzy[1:]
+    else:
+        mids = mids + fuzzy
+    mids = mids[:4] if len(mids) > 4 and rng.random() < 0.5 else mids
+    # every TF-adjusted level must find its single-column exact level (or use its own u)
+    for lv in mids:
+        if lv["tf_col"] and not lv["disable"] and not any(ecols(o) == [lv["tf_col"]] for o in mids):
+            lv["disable"] = True
+    levels = [_lv("null", x, mvals, uvals, rng)] + mids + [_lv("else", x, mvals, uvals, rng)]
+    return {"name": x, "route": rng.choice(["custom", "custom", "dict"]), "cols": [x, y], "levels": levels}
 
 
 def gen_comparison(rng, x: str, others: list[str], mode: str, boundary: bool, allow_inf: bool):
@@ -101,6 +157,8 @@ def gen_comparison(rng, x: str, others: list[str], mode: str, boundary: bool, al
             lv["arg"] = arg
         if kind == "custom":
             lv["sql"], lv["exact_col"] = arg
+            if " AND " in lv["sql"]:
+                lv["exact_cols"] = [x, y]
         if kind == "exact":
             lv["exact_col"] = x
         if route in ("lib_exact", "lib_lev"):
@@ -146,10 +204,18 @@ def gen_comparison(rng, x: str, others: list[str], mode: str, boundary: bool, al
     return {"name": x, "route": route, "levels": levels}
 
 
-def gen_spec(rng, mode="X", boundary=False, allow_inf=True, ncmp=None):
+def gen_spec(rng, mode="X", boundary=False, allow_inf=True, ncmp=None, multi_exact=None):
     ncmp = ncmp or rng.choice([1, 2, 2, 3, 3, 4])
     cols = rng.sample(COLS, ncmp)
-    comps = [gen_comparison(rng, x, [c for c in COLS if c != x], mode, boundary, allow_inf) for x in cols]
+    if multi_exact is None:
+        multi_exact = mode != "P2" and not boundary and rng.random() < 0.15
+    if multi_exact:
+        x = cols[0]
+        y = rng.choice([c for c in COLS if c != x])
+        comps = [gen_multi_exact_comparison(rng, x, y, mode)]
+        comps += [gen_comparison(rng, c, [o for o in COLS if o != c], mode, boundary, allow_inf) for c in cols[1:] if c != y]
+    else:
+        comps = [gen_comparison(rng, x, [c for c in COLS if c != x], mode, boundary, allow_inf) for x in cols]
     tf_cols = sorted({lv["tf_col"] for c in comps for lv in c["levels"] if lv["tf_col"]})
     return {"prior": "1/2" if mode == "P2" else rng.choice(PRIOR_T if mode == "T" else PRIOR_X), "link_type": "dedupe_only",
             "tf_cols": tf_cols, "comparisons": comps, "boundary": boundary, "mode": mode}
@@ -170,7 +236,7 @@ def level_term(spec, lv, idx: int) -> str:
     cid = {c: i for i, c in enumerate(spec["tf_cols"])}
     allc = {c: i for i, c in enumerate(spec["tf_cols"] + [c for c in COLS if c not in spec["tf_cols"]])}
     tc = coq_opt(lv["tf_col"], lambda c: f"{cid[c]}%nat")
-    ec = coq_opt(lv["exact_col"], lambda c: f"{allc[c]}%nat")
+    ec = coq_list([f"{allc[c]}%nat" for c in ecols(lv)], "nat")
     return (f"(L {idx}%nat {coq_bool(lv['kind'] == 'null')} {coq_bool(lv['kind'] == 'else')} {coq_Q(fr(lv['m']))} "
             f"{coq_Q(fr(lv['u']))} {tc} {coq_Q(fr(lv['w']))} {coq_Q(fr(lv['min_u']))} {coq_bool(lv['disable'])} {ec})")
 
@@ -248,7 +314,11 @@ def comparison_creators(spec, dialect="duckdb"):
     for c in spec["comparisons"]:
         x = c["name"]
         nn = [lv for lv in c["levels"] if lv["kind"] != "null"]
-        if c["route"] == "lib_exact":
+        if c["route"] == "lib_fnsn":
+            fn, sn = c["cols"]
+            cc = cl.ForenameSurnameComparison(fn, sn, jaro_winkler_thresholds=c["jw"]).configure(
+                m_probabilities=[fl(lv["m"]) for lv in nn], u_probabilities=[fl(lv["u"]) for lv in nn])
+        elif c["route"] == "lib_exact":
             cc = cl.ExactMatch(x).configure(
                 term_frequency_adjustments=any(lv["tf_col"] for lv in c["levels"]),
                 m_probabilities=[fl(lv["m"]) for lv in nn],
